@@ -25,7 +25,7 @@ func (i Ident) NodeKey() graph.NodeKey {
 	return graph.NodeKey{Type: i.Type, Key: i.Key, Group: i.Group}
 }
 
-// Universe of node identities: 3 types x {nil,"k"} keys plus two grouped ones.
+// Universe of node identities: 3 types x {nil,"k"} keys plus grouped ones.
 var Universe = []Ident{
 	{Name: "A", Type: pool.T("K0")},
 	{Name: "B", Type: pool.T("K1")},
@@ -39,6 +39,10 @@ var Universe = []Ident{
 	{Name: "E", Type: pool.T("S0")},
 	{Name: "F", Type: pool.T("S1")},
 	{Name: "G", Type: pool.T("S2")},
+	// the same type and key as A / Ak, told apart by the group alone (a service built from the
+	// group of its own type: the nodes Build creates for `func(hs []Handler) Handler`)
+	{Name: "Ah", Type: pool.T("K0"), Group: "h"},
+	{Name: "Akh", Type: pool.T("K0"), Key: "k", Group: "h"},
 }
 
 var nameOf = map[graph.NodeKey]string{}
